@@ -146,6 +146,22 @@ std::string check_text(const Text &x, bool framed_everywhere, long *calls = null
             ncalls += framed ? 2 : 1;
             if (!why.empty()) return why;
         }
+        // output_size far above anything that exists (a caller that passes "no limit"): the decision and the bytes written must not depend on it.
+        // The real block has exactly d bytes for a valid text (ASan sees any byte beyond), and room for a partial decode for an invalid one.
+        static const size_t kHuge[] = {(size_t)-1, (size_t)-2, (size_t)-1 / 2, (size_t)-1 / 2 + 1, (size_t)1 << 32, ((size_t)1 << 32) - 1, (size_t)1 << 31, ((size_t)1 << 31) - 1};
+        for (size_t hi = 0; hi < sizeof kHuge / sizeof kHuge[0]; hi++) {
+            const size_t real = f.valid ? (d ? d : 1) : s.size() + 4;
+            uint8_t *blk = static_cast<uint8_t *>(::malloc(real));
+            memset(blk, 0xC7, real);
+            ST_ssize_t r = call_buf(codec, text, f.valid && d == 0 ? blk + 1 : blk, kHuge[hi]);
+            ncalls++;
+            std::string why;
+            const long expect = f.valid ? (long)d : -1;
+            if ((long)r != expect) why = std::string(codec_name(codec)) + "(text, buf, " + verif::unum(kHuge[hi]) + ") returned " + verif::num(r) + ", expected " + verif::num(expect) + " (output_size far larger than the data)";
+            else if (f.valid && d && memcmp(blk, want.data(), d) != 0) why = std::string(codec_name(codec)) + "(text, buf, " + verif::unum(kHuge[hi]) + ") wrote " + verif::units(blk, d, 16) + ", reference decoding is " + verif::units(want.data(), want.size(), 16);
+            ::free(blk);
+            if (!why.empty()) return why;
+        }
     } catch (...) {
         return "unexpected " + verif::describe_current_exception() + " from " + codec_name(codec);
     }
